@@ -2,8 +2,10 @@
 import math
 import sys
 
-if "/repo" not in sys.path:
-    sys.path.insert(0, "/repo")
+import os
+_REPO = os.environ.get("VERIF_REPO", "/repo")
+if _REPO not in sys.path:
+    sys.path.insert(0, _REPO)
 
 from ring import angle_to_k, k_to_angle, gauss_dyadic, to_complex  # noqa: E402
 
